@@ -1843,6 +1843,26 @@ NULLABLE_LOOKUPS = {
 NONNULL_WITNESS = {"CPPDeclaration::get_template_scope": "is_template"}
 
 
+def _is_nullable_call(n):
+    """A call whose answer input can make null: the lookups, and the struct type of a BASE class (a base may be only
+    forward-declared, or depend on a template parameter)."""
+    if n is None or n.get("k") != "call":
+        return False
+    if n.get("f") in NULLABLE_LOOKUPS:
+        return True
+    if callee_short(n) == "as_struct_type" and "this" in n:
+        t = strip_casts(peel(n["this"]))
+        return t is not None and t.get("k") == "mem" and (t.get("n") or "").endswith("Base::_base")
+    return False
+
+
+BASE_STRUCT_EXEMPT = {
+    "InterrogateBuilder::is_inherited_published": "only called for a method marked SC_inherited_virtual by get_virtual_funcs(), which found the overridden "
+                                                  "function through `base->get_virtual_funcs()` of a non-null struct base; with _derivation.size() == 1 that base is [0] "
+                                                  "(premise checked: every call is behind SC_inherited_virtual and size() == 1)",
+}
+
+
 def _deref_base(x):
     if x.get("k") == "mem" and x.get("arrow"):
         return strip_casts(peel(x.get("b")))
@@ -1858,10 +1878,12 @@ def lookup_results_are_nullable(ctx):
     parameter it arrives in without a test of its own - only behind evidence that it is not null: a test of the same
     local / the same call expression, or (for get_template_scope) `is_template()` of the same receiver.  Asserts are not
     evidence: the analysis is done with NDEBUG, as the tools are built.
+    The same holds for the struct type of a BASE class: `struct Fwd; struct S : Fwd {};` has a base that is no struct type
+    (F-C15y: is_standard_layout()).
     (F-C15v: `Outer<int>::In<char>` - member template of an instantiated class, no template scope - SIGSEGV in
     nested_parse_template_instantiation; F-C15w: find_type() of a templated name that names nothing.)"""
     db = ctx.db
-    ctx.rule("R15.25", "a result of find_symbol/find_type/find_template/find_scope/get_scope/get_template_scope is dereferenced (directly, through a once-assigned local, or by the callee it is passed to) only behind a non-null test of the same thing")
+    ctx.rule("R15.25", "a result of find_symbol/find_type/find_template/find_scope/get_scope/get_template_scope, or the as_struct_type() of a base class, is dereferenced (directly, through a once-assigned local, or by the callee it is passed to) only behind a non-null test of the same thing")
     # the witness predicates are what the table says
     for acc, wit in NONNULL_WITNESS.items():
         cls = acc.split("::")[0]
@@ -1895,7 +1917,7 @@ def lookup_results_are_nullable(ctx):
                 for dd in y["d"]:
                     cnt[dd["d"]] = cnt.get(dd["d"], 0) + 1
                     i0 = strip_casts(peel(dd.get("init"))) if dd.get("init") is not None else None
-                    if i0 is not None and i0.get("k") == "call" and i0.get("f") in NULLABLE_LOOKUPS:
+                    if _is_nullable_call(i0):
                         defs[dd["d"]] = i0
             t = assigned_target(y)
             if t:
@@ -1903,7 +1925,7 @@ def lookup_results_are_nullable(ctx):
                 if r is not None:
                     cnt[r["d"]] = cnt.get(r["d"], 0) + 1
                     v = strip_casts(peel(t[1]))
-                    if v is not None and v.get("k") == "call" and v.get("f") in NULLABLE_LOOKUPS:
+                    if _is_nullable_call(v):
                         defs[r["d"]] = v
         single = {d: v for d, v in defs.items() if cnt.get(d, 0) == 1}
 
@@ -1939,7 +1961,7 @@ def lookup_results_are_nullable(ctx):
             if b is None:
                 continue
             call, ld = None, None
-            if b.get("k") == "call" and b.get("f") in NULLABLE_LOOKUPS:
+            if _is_nullable_call(b):
                 call = b
             else:
                 r = local_ref(b)
@@ -1948,6 +1970,16 @@ def lookup_results_are_nullable(ctx):
             if call is None:
                 continue
             n += 1
+            if f.name in BASE_STRUCT_EXEMPT and callee_short(call) == "as_struct_type":
+                callers = [(g, c) for g in db.functions for c in g.calls(f.name)]
+                prem = bool(callers)
+                for g, c in callers:
+                    e1 = G.edges_where(g, lambda atom, truth: truth and "SC_inherited_virtual" in show(atom) and "&" in show(atom))
+                    e2 = G.edges_where(g, lambda atom, truth: (G.cmp_atom(atom) or (None,))[0] == ("==" if truth else "!=") and "_derivation.size()" in show(atom).replace(" ", "") and
+                                       any(const_int(z) == 1 for z in G.cmp_atom(atom)[1:] if z is not None))
+                    prem = prem and bool(e1) and G.gated(g, c, e1) and bool(e2) and G.gated(g, c, e2)
+                ctx.ob("R15.25", "%s|%s|exception" % (f.name, _norm(show(x))[:60]), prem, f.loc(x), "reasoned exception: " + BASE_STRUCT_EXEMPT[f.name])
+                continue
             ok = G.gated(f, x, evidence(call, ld))
             ctx.ob("R15.25", "%s|%s|deref-behind-non-null" % (f.name, _norm(show(x))[:60]), ok, f.loc(x),
                    "`%s` is %sbehind evidence that %s is not null" % (show(x)[:50], "" if ok else "NOT ", show(call)[:40]))
@@ -1957,7 +1989,7 @@ def lookup_results_are_nullable(ctx):
             for i, a in enumerate(c.get("a") or []):
                 a0 = strip_casts(peel(a))
                 call, ld = None, None
-                if a0 is not None and a0.get("k") == "call" and a0.get("f") in NULLABLE_LOOKUPS:
+                if _is_nullable_call(a0):
                     call = a0
                 else:
                     r = local_ref(a0) if a0 is not None else None
@@ -1972,7 +2004,7 @@ def lookup_results_are_nullable(ctx):
                 ok = G.gated(f, c, evidence(call, ld))
                 ctx.ob("R15.25", "%s|%s(#%d=%s)|callee-dereferences-it" % (f.name, callee_short(c), i, _norm(show(call))[:40]), ok, f.loc(c),
                        "%s() dereferences this parameter without a test of its own; the call is %sbehind evidence that %s is not null" % (callee_short(c), "" if ok else "NOT ", show(call)[:40]))
-    ctx.floor("R15.25", "dereferences of lookup results", n, 30)
+    ctx.floor("R15.25", "dereferences of lookup results", n, 50)
     ctx.floor("R15.25", "lookup results passed to a callee that dereferences them", n_arg, 2)
 
 
